@@ -2,6 +2,7 @@ import SiaModel.Prim.Bytes
 import SiaModel.Codec.Schema
 import SiaModel.Gen.FactsSchema
 import SiaModel.Codec.Irregular
+import SiaModel.Codec.PolicyBridge
 /-!
 Line-protocol ops of the schema codec (C11 / C10-decode):
 
@@ -50,7 +51,29 @@ def codecStrictOp (args : List String) : String :=
     | _, _ => "bad-op"
   | _ => "bad-op"
 
+/-- `policyx <hex>`: decode a SpendPolicy with the schema codec, convert the value to the policy
+tree of the semantics model (C14) and encode it with THAT model's own encoder
+(`Sia.Policy.encode`, used for addresses): `same <hex>` when both encoders agree with the input
+consumed, `differ …` otherwise, `err` when the decoder refuses. -/
+def policyXOp (args : List String) : String :=
+  match args with
+  | [hex] =>
+    match codecHexArg hex with
+    | some bs =>
+      match dec Irregular.env 0 (.ext "Types.SpendPolicy") bs with
+      | .ok (v, rest) =>
+        let mine := enc Irregular.env (.ext "Types.SpendPolicy") v
+        match Policy.toPolicy v with
+        | some p =>
+          let theirs := Policy.otherEncoder p
+          if mine == theirs && mine ++ rest == bs then "same " ++ codecHexOut mine
+          else "differ " ++ codecHexOut mine ++ " " ++ codecHexOut theirs
+        | none => "differ-no-tree"
+      | .error _ => "err"
+    | none => "bad-op"
+  | _ => "bad-op"
+
 def codecOps : List (String × (List String → String)) :=
-  [("codec", codecOp), ("codecstrict", codecStrictOp)]
+  [("codec", codecOp), ("codecstrict", codecStrictOp), ("policyx", policyXOp)]
 
 end Sia.Driver
